@@ -23,7 +23,11 @@ MANIFEST = {
             "no 32-bit wrap assumed), with size = initial + granted <= capacity at quiescence; a failed "
             "interaction leaves energy, direction, status, deposition, secondaries and the stack "
             "untouched; initializer/primary capacity is validated before any initializer is "
-            "written and reset re-establishes the C02 invariant.  Correspondence: random op "
+            "written and reset re-establishes the C02 invariant; a failed interaction is handed to "
+            "the action registered as physics-failure (registration order and failure_action() "
+            "expression regenerated from source), never to a model; the Stepper refuses event ids "
+            ">= max_events before track_counters is indexed (strict comparison regenerated from "
+            "Stepper.cc).  Correspondence: random op "
             "scripts on the real allocator for capacities 0..; starved secondary stacks and "
             "tight initializer capacities on a real CoreState.",
     "design_ref": "DESIGN.md §6 C16",
@@ -247,6 +251,67 @@ def run_livelock(ctx, ps):
     return {"livelock_reproduced": seen, "livelock_model_agrees": model_same}
 
 
+def event_id_scenarios(rng, n):
+    """`stepper <maxEvents> <slots> <ev>...` lines around the max_events boundary"""
+    out = []
+    for max_ev in (1, 2, 3, 8, 64):
+        for ev in (max_ev - 1, max_ev, max_ev + 1, 4000000000, 4294967294):
+            out.append("stepper %d %d %d" % (max_ev, rng.choice([1, 2, 4]), ev))
+        out.append("stepper %d 2 0 %d" % (max_ev, max_ev))          # bad id last
+        out.append("stepper %d 2 %d 0" % (max_ev, max_ev))          # bad id first
+        out.append("stepper %d 3 %d 0 %d" % (max_ev, max_ev - 1, max_ev - 1))
+    for _ in range(n):
+        max_ev = rng.range(1, 64)
+        k = rng.range(1, 6)
+        evs = [rng.below(max_ev) for _ in range(k)]
+        if rng.chance(1, 2):
+            evs[rng.below(k)] = rng.choice([max_ev, max_ev, max_ev + 1, max_ev + rng.below(100),
+                                            2 * max_ev, 4000000000])
+        out.append("stepper %d %d " % (max_ev, rng.range(1, 8)) + " ".join(map(str, evs)))
+    return out
+
+
+def run_event_ids(ctx, broken, ps):
+    """the real Stepper::operator()(primaries): primaries with an event id >= max_events must
+    be refused with the documented error before make_track_id indexes track_counters; below
+    max_events they must be accepted.  Every scenario runs in its own process (an accepted
+    out-of-range id overruns the heap)."""
+    exe, log, _ = vlib.build_harness("trackinit", HARNESS["trackinit"])
+    if exe is None:
+        return {}
+    lines = event_id_scenarios(ctx.rng, 30 if ctx.quick() else 400)
+    n_bad = 0
+    om = None
+    if ps["model_ok"] and os.path.exists(vlib.model_exe("C02")):
+        _, om = vlib.run_lines([vlib.model_exe("C02")], lines)
+    tags = {}
+    for k, l in enumerate(lines):
+        w = l.split()
+        max_ev, evs = int(w[1]), [int(x) for x in w[3:]]
+        rc, oh = vlib.run_lines([exe], [l])
+        got = oh[0] if oh else "<no output, rc=%d>" % rc
+        tags[got.split(" generated")[0]] = tags.get(got.split(" generated")[0], 0) + 1
+        must_fail = any(e >= max_ev for e in evs)
+        msg = key = None
+        if must_fail and got != "stepper error-max-events":
+            key, msg = "event-id-not-checked", (
+                f"Stepper accepted primaries with event id >= max_events={max_ev} "
+                f"(ids {evs}): answered `{got}`; make_track_id then indexes track_counters "
+                "out of bounds")
+        elif not must_fail and not got.startswith("stepper ok generated=%d " % len(evs)):
+            key, msg = "event-id-spurious-error", (
+                f"Stepper refused/ mishandled primaries with event ids {evs} < max_events="
+                f"{max_ev}: answered `{got}`")
+        if key and n_bad < 3:
+            n_bad += 1
+            ctx.violation(key, msg, {"harness": "harness/trackinit.cc", "ops": [l], "impl": got,
+                                     "event_ids": True,
+                                     "contradicts": "Props/C16.lean event_id_checked_first"})
+        if om is not None and k < len(om) and om[k] != got and not key:
+            broken.append(f"correspondence(stepper event ids): `{l}` impl `{got}` model `{om[k]}`")
+    return {"event_id_scenarios": len(lines), "event_id_answers": tags}
+
+
 def run_interleave(ctx, ps):
     """model-side: random systems and schedules through the interleaving semantics of the Lean
     driver; the conclusions of `interleaved_allocs_disjoint` are re-evaluated on the outputs
@@ -339,6 +404,14 @@ def run(ctx):
         "finding: when the secondary stack cannot hold the request of a single interaction the "
         "failed interaction is retried for ever (starved_stack_livelock); progress of a step is "
         "guaranteed exactly when capacity >= that request (first_request_succeeds)",
+        "failed interactions are produced by a scripted model registered through the real "
+        "PhysicsParams next to a second, secondary-free LAST model; all registered post-step "
+        "actions are run in id order as ActionSequence does; the `physics-failure` id is looked "
+        "up by label in the ActionRegistry",
+        "starved-stack scripts use track orders none/init_charge only: which request fails "
+        "depends on the kernel's thread order, modelled as slot order",
+        "event-id validation is exercised through the real Stepper on a plain SimpleTestBase "
+        "problem, one process per scenario",
         "`alloc(0)` and default-constructed (capacity 0) allocators violate CELER_EXPECT "
         "preconditions; capacity 0 is still exercised through a hand-built StackAllocatorData",
     ]
@@ -346,6 +419,7 @@ def run(ctx):
     cov.update(run_loop(ctx, broken, ps))
     cov.update(run_interleave(ctx, ps))
     cov.update(run_livelock(ctx, ps))
+    cov.update(run_event_ids(ctx, broken, ps))
     if cov.get("livelock_model_agrees") is False:
         broken.append("correspondence(livelock script): model and implementation differ")
     if broken and not ctx.violations:
@@ -379,6 +453,16 @@ def run(ctx):
 
 def replay(ctx, data):
     r = data["replay"]
+    if r.get("event_ids"):
+        exe, log, _ = vlib.build_harness("trackinit", HARNESS["trackinit"])
+        rc, oh = vlib.run_lines([exe], r["ops"])
+        print(r["ops"][0], "->", oh[:1], "rc", rc)
+        w = r["ops"][0].split()
+        must_fail = any(int(e) >= int(w[1]) for e in w[3:])
+        bad = (oh[:1] != ["stepper error-max-events"]) if must_fail else \
+            not (oh and oh[0].startswith("stepper ok"))
+        print("violation reproduced" if bad else "behaves as documented")
+        return 1 if bad else 0
     if r.get("livelock"):
         exe, log, _ = vlib.build_harness("trackinit", HARNESS["trackinit"])
         script = livelock_script()
